@@ -133,6 +133,11 @@ def stage2(chk, g1, ri, g):
         kind = r.choice([0, 0, 1, 2]); data = r.bytes(64) if kind == 1 else (r.choice([None, r.bytes(1)]) if kind == 2 else None)
         g.add('ellswift_xdh %s %s %s #0 #%d %s' % (ea, eb, h32(a), kind, opt(data)), 'xdh_both_roles', pair=('x', i))
         g.add('ellswift_xdh %s %s %s #1 #%d %s' % (ea, eb, h32(b), kind, opt(data)), 'xdh_both_roles', pair=('x', i))
+        if r.chance(1, 2):      # the exported hash functions reached through a forwarding callback instead of by name
+            k2 = 5 if kind != 1 else 6; d2 = data if kind == 1 else None
+            if kind in (0, 1):
+                g.add('ellswift_xdh %s %s %s #0 #%d %s' % (ea, eb, h32(a), k2, opt(d2)), 'xdh_exported_hash_via_forwarding_callback', pair=('x', i))
+                g.add('ellswift_xdh %s %s %s #1 #%d %s' % (ea, eb, h32(b), k2, opt(d2)), 'xdh_exported_hash_via_forwarding_callback', pair=('x', i))
         if r.chance(1, 3):      # party is a boolean: every non-zero value means "we are B" and must give B's (= A's) secret
             pv = r.choice([2, 3, 4, 256, 65536, -1, -2, 2147483647, -2147483648])
             g.add('ellswift_xdh %s %s %s #%d #%d %s' % (ea, eb, h32(b), pv, kind, opt(data)), 'xdh_party_nonzero_non_one', pair=('x', i))
